@@ -368,7 +368,7 @@ def case_gyration(ctx, rng):
 def run(ctx):
     from ..harness import fresh_dir, drop_dir
     wd = fresh_dir("c17")
-    n = ctx.n(70, 200)
+    n = ctx.n(160, 200)
     for i in range(n):
         case_s2(ctx, ctx.rng(), wd, sparse=(i % 5 == 0))
         case_tetra(ctx, ctx.rng(), wd, n5=(i % 6 == 0), diamond=(i % 7 == 3))
